@@ -1,7 +1,7 @@
 from vlib.core import Query
 OBJS = {1: ("enc_dec_segments", ["Source/Lib/Encoder/Codec/EbEncDecSegments.c:enc_dec_segments_ctor", "Source/Lib/Encoder/Codec/EbEncDecSegments.c:enc_dec_segments_dctor"], "segment grid 1..3 x 1..3"),
         2: ("system_resource", ["Source/Lib/Common/Codec/EbSystemResourceManager.c:svt_system_resource_ctor", "Source/Lib/Common/Codec/EbSystemResourceManager.c:svt_system_resource_dctor",
-                                "Source/Lib/Common/Codec/EbSystemResourceManager.c:svt_muxing_queue_ctor", "Source/Lib/Common/Codec/EbSystemResourceManager.c:svt_fifo_ctor"], "1..2 objects, 1 producer, 0..1 consumers"),
+                                "Source/Lib/Common/Codec/EbSystemResourceManager.c:svt_muxing_queue_ctor", "Source/Lib/Common/Codec/EbSystemResourceManager.c:svt_fifo_ctor"], "1 object, 1 producer fifo, 1 consumer fifo"),
         3: ("picture_buffer_desc", ["Source/Lib/Common/Codec/EbPictureBufferDesc.c:svt_picture_buffer_desc_ctor", "Source/Lib/Common/Codec/EbPictureBufferDesc.c:svt_picture_buffer_desc_dctor"], "8x8 4:2:0, 8/10 bit, every plane mask, split mode on/off"),
         4: ("output_bitstream_unit", ["Source/Lib/Common/Codec/EbBitstreamUnit.c:output_bitstream_unit_ctor"], "buffer 1..64 bytes")}
 META = {
@@ -14,6 +14,14 @@ META = {
 def queries(tier, fail=1, prefix="fail_"):
     qs = []
     for k, (n, funcs, b) in OBJS.items():
+        if k == 2 and fail:
+            if tier != "thorough":
+                continue      # measured: the resource manager's partial-teardown paths need >12 GB per query; thorough tier only
+            for lo, hi in ((0, 2), (3, 5), (6, 8), (9, 11), (12, 14), (15, 17), (18, 20), (21, 23), (24, 40)):
+                qs.append(Query(name="%s%s_k%d_%d" % (prefix, n, lo, hi), harness="C16/ctors.c", defines=["OBJ=2", "FAIL=1", "KLO=%d" % lo, "KHI=%d" % hi], unwind=4, funcs=funcs,
+                                bound=b + "; the k-th allocation/OS-object request fails, k symbolic in [%d,%d] (k beyond the last request = no failure)" % (lo, hi),
+                                what="construction failure is reported and unwound without crash or leak", timeout=3000, mem_gb=28))
+            continue
         qs.append(Query(name=prefix + n, harness="C16/ctors.c", defines=["OBJ=%d" % k, "FAIL=%d" % fail], unwind=4 if k in (1, 2) else 12, funcs=funcs,
                         bound=b + ("; the k-th allocation/OS-object request fails, all k" if fail else "; no failures"),
                         what="construction failure is reported and unwound without crash or leak" if fail else "constructor+destructor release every allocation, mutex and semaphore",
